@@ -194,9 +194,11 @@ def _write(detector, plan, tag, i, shape):
             nw = int(spec.get("nw", 2))
             base = _value_array(shape, v, dt)
             data = np.stack([base + dt_i for dt_i in range(nw)]).astype(dt)
-            detector.photon.array_3d = xr.DataArray(
-                data, dims=["wavelength", "y", "x"], coords={"wavelength": [400.0 + 100.0 * k for k in range(nw)]}
-            )
+            coords = {"wavelength": [400.0 + 100.0 * k for k in range(nw)]}
+            if spec.get("own_xy"):  # the cube carries positions of its own on 'y' / 'x' (pixel centres in um, as an optics / interpolation step leaves them)
+                coords["y"] = (np.arange(shape[0]) + 0.5) * 18.0
+                coords["x"] = (np.arange(shape[1]) + 0.5) * 18.0
+            detector.photon.array_3d = xr.DataArray(data, dims=["wavelength", "y", "x"], coords=coords)
         elif bucket == "charge":
             detector.charge.add_charge_array(_value_array(shape, v, dt))
         elif bucket == "clusters":
